@@ -29,6 +29,7 @@ from concurrent.futures import ThreadPoolExecutor
 from typing import Any, Optional
 
 from .. import assign_common as ac
+from .. import c12_constfold as K
 from .. import c12_fragments as F
 from .. import codec, core, pyz
 
@@ -76,6 +77,7 @@ def line_records(src: str, ids: TextIds) -> list[dict]:
     return out
 
 
+_FRAME = re.compile(r'^\s*File ".*/pyanalyze/([a-z_]+\.py)", line \d+, in (\w+)$')
 _CTX = re.compile(r"^ *(\d+): (.*)$", re.S)
 _CARET = re.compile(r"^( +)\^$")
 
@@ -125,17 +127,21 @@ def diag_event(tid: int, f: dict, pos: Optional[tuple[set, set]], frag_of_line, 
     lineno = f.get("lineno") if f.get("lineno") is not None else 0
     col = f.get("col_offset") if f.get("col_offset") is not None else 0
     ctx, caret = parse_context(f.get("context"), ids)
-    exc = ""
+    exc, exck, site = "", "", ""
     for ln in desc.splitlines():
         if ln.startswith("Internal error: "):
             exc = ln[:200]
+            exck = ln[len("Internal error: "):].split("(")[0]
+        m = _FRAME.match(ln)
+        if m:  # innermost pyanalyze frame of the reported traceback: file:function
+            site = m.group(1) + ":" + m.group(2)
     first = desc.splitlines()[0] if desc.splitlines() else ""
     origin = "none"
     if pos is not None:
         a, b = (lineno, col) in pos[0], (lineno, col) in pos[1]
         origin = "both" if a and b else "file" if a else "fwd" if b else "none"
     return {"tid": tid, "event": "Diag", "code": code, "haspos": haspos, "lineno": lineno, "col": col, "msglen": len(desc),
-            "exc": exc, "head": first.split(":")[0][:60], "ctx": ctx, "caret": caret, "origin": origin,
+            "exc": exc, "exck": exck, "site": site, "head": first.split(":")[0][:60], "ctx": ctx, "caret": caret, "origin": origin,
             "frag": frag_of_line(lineno), "marker": bool(marker(code, desc)), "msg": desc[:200]}
 
 
@@ -293,6 +299,13 @@ def observe_layout(arg: tuple[int, dict]) -> list[dict]:
     return observe_source(tid * 2, src, {"slice": "layout", "layout": lay, "node": node}, lambda lineno: 0, marker)
 
 
+# --------------------------------------------------------------------------- K: constant folding
+def observe_const(arg: tuple[int, dict]) -> list[dict]:
+    tid, p = arg
+    src = K.render(p["const"])
+    return observe_source(tid * 2, src, {"slice": "const", "const": p["const"]}, lambda lineno: 0, _no_marker)
+
+
 # --------------------------------------------------------------------------- V / R: the public value API
 def _tvmap():
     from pyanalyze import value as V
@@ -418,8 +431,8 @@ def _header() -> dict:
 
 
 def _strip(e: dict) -> dict:
-    drop = ("msg", "note", "nops", "layout", "config", "same_as_other_config") if e.get("code") == "internal_error" or e["event"] != "Diag" else (
-        "msg", "note", "nops", "exc", "head")
+    drop = ("msg", "note", "nops", "layout", "config", "same_as_other_config", "const") if e.get("code") == "internal_error" or e["event"] != "Diag" else (
+        "msg", "note", "nops", "exc", "exck", "site", "head")
     return {k: v for k, v in e.items() if k not in drop}
 
 
@@ -446,18 +459,22 @@ def adjudicate(groups: list[list[dict]], parallel: int = 8) -> tuple[dict[Any, l
     return verdicts, stats
 
 
-def judge(check: core.Check, progs: list[dict], layouts: list[dict], pairs: list[dict], rts: list[dict], label: str) -> None:
+def judge(check: core.Check, progs: list[dict], layouts: list[dict], pairs: list[dict], rts: list[dict], label: str,
+          consts: Optional[list[dict]] = None) -> None:
+    consts = consts or []
     import time as _t
 
     t0 = _t.time()
     per_prog = core.pmap(observe_prog, list(enumerate(progs)), chunk=20)
     base = len(progs)
     per_lay = core.pmap(observe_layout, [(base + i, p) for i, p in enumerate(layouts)], chunk=40)
-    base = 2 * (len(progs) + len(layouts))
+    base = len(progs) + len(layouts)
+    per_const = core.pmap(observe_const, [(base + i, p) for i, p in enumerate(consts)], chunk=4)
+    base = 2 * (len(progs) + len(layouts) + len(consts))
     vals = core.pmap(observe_values, [(base + i, p) for i, p in enumerate(pairs)], chunk=500)
     base += len(pairs)
     rtobs = core.pmap(observe_rt, [(base + i, p) for i, p in enumerate(rts)], chunk=500)
-    groups = per_prog + per_lay + [[v] for v in vals] + [[v] for v in rtobs]
+    groups = per_prog + per_lay + per_const + [[v] for v in vals] + [[v] for v in rtobs]
     t1 = _t.time()
     verdicts, stats = adjudicate(groups)
     check.add_trace_stats(stats)
@@ -469,8 +486,9 @@ def judge(check: core.Check, progs: list[dict], layouts: list[dict], pairs: list
     for tid, vs in sorted(verdicts.items()):
         evs = by_tid.get(tid, [])
         first = evs[0] if evs else {}
-        case = {k: first[k] for k in ("prog", "layout", "a", "b", "o") if first.get(k) not in (None, [], {})}
-        src = render(first["prog"]) if first.get("slice") == "frag" else render_layout(first["layout"]) if first.get("slice") == "layout" else None
+        case = {k: first[k] for k in ("prog", "layout", "const", "a", "b", "o") if first.get(k) not in (None, [], {})}
+        src = (render(first["prog"]) if first.get("slice") == "frag" else render_layout(first["layout"]) if first.get("slice") == "layout"
+               else K.render(first["const"]) if first.get("slice") == "const" else None)
         bad = [e for e in evs if e["event"] in ("Raised", "Diag", "ValueOp", "RtOp")]
         for v in sorted(set(vs)):
             payload = {"case": case, "config": first.get("config"), "verdict": v, "source": label, "src": src,
@@ -483,14 +501,18 @@ def judge(check: core.Check, progs: list[dict], layouts: list[dict], pairs: list
                 check.drift(payload)
             else:
                 raise core.MachineryError(f"unexpected verdict {v} for tid {tid}")
-    check.evals(2 * (len(progs) + len(layouts)) + sum(v["nops"] for v in vals) + sum(v["nops"] for v in rtobs))
+    check.evals(2 * (len(progs) + len(layouts) + len(consts)) + sum(v["nops"] for v in vals) + sum(v["nops"] for v in rtobs))
     for p in progs:
         check.nontrivial(core.canon(p["prog"]))
     for p in layouts:
         check.nontrivial(core.canon(p["layout"]))
     for p in pairs:
         check.nontrivial(core.canon([p["a"], p["b"]]))
-    ndiag = sum(1 if e["event"] == "Diag" else e.get("same_as_other_config", 0) for evs in per_prog + per_lay for e in evs
+    for p in consts:
+        check.nontrivial(core.canon(p["const"]))
+    check.cov["constant_expressions"] = check.cov.get("constant_expressions", 0) + sum(
+        len(p["const"]["xs"]) * max(1, len(p["const"]["ys"])) for p in consts)
+    ndiag = sum(1 if e["event"] == "Diag" else e.get("same_as_other_config", 0) for evs in per_prog + per_lay + per_const for e in evs
                 if e["event"] in ("Diag", "End"))
     check.cov["diagnostics_judged"] = check.cov.get("diagnostics_judged", 0) + ndiag
     check.cov["value_operations"] = check.cov.get("value_operations", 0) + sum(v["nops"] for v in vals) + sum(v["nops"] for v in rtobs)
@@ -548,6 +570,11 @@ def selftest_trace_oracle(check: core.Check) -> None:
                                                   "fails": [{"op": "unite_values", "exc": "RuntimeError: __hash__ raises"}]}])
     expect[26] = ("viol:ValueOperationRaised", [{"tid": 26, "event": "ValueOp", "a": big, "b": HR,
                                                   "fails": [{"op": "can_assign", "exc": "RuntimeError: __hash__ raises"}]}])
+    # the open input-side classes excuse nothing outside their own fragment kind
+    expect[27] = ("viol:InternalError", case(27, {"code": "internal_error", "exck": "TypeError", "site": "name_check_visitor.py:_visit_single_compare",
+                                                  "exc": "Internal error: TypeError(\"'>' not supported between instances of 'sys.version_info' and 'str'\")"}))
+    expect[28] = ("viol:InternalError", case(28, {"code": "internal_error", "exck": "OverflowError", "site": "name_check_visitor.py:_visit_single_formatted_value",
+                                                  "exc": "Internal error: OverflowError('%c arg not in range(0x110000)')"}))
     # a line that str.splitlines() would cut: the context must show the whole physical line (9834ac5); pieces are rejected
     src2 = "def f():\n    return (\"a\x0cb\", zz_mark)\n"
     evs2 = observe_source(0, src2, {"slice": "frag", "prog": []}, lambda n: 0, _no_marker)
@@ -612,6 +639,7 @@ def run(check: core.Check) -> None:
         f_val = ex.submit(core.run_tlc, "TotalityEmit", "Totality.vals.cfg", timeout=1800, workers=4)
         f_rt = ex.submit(core.run_tlc, "TotalityEmit", "Totality.rt.cfg", timeout=1800, workers=2)
         f_pairs = ex.submit(core.run_tlc, "AssignEmit", "Assign.emit1.cfg", timeout=1800, workers=4)
+        f_const = ex.submit(core.run_tlc, "TotalityEmit", "Totality.const.cfg" if quick else "Totality.constfull.cfg", timeout=1800, workers=2)
         em = core.require_ok(f_em.result(), "Totality emit")
         sim = f_sim.result()
         lem = core.require_ok(f_lay.result(), "layouts")
@@ -619,6 +647,7 @@ def run(check: core.Check) -> None:
         vem = core.require_ok(f_val.result(), "wide value pairs")
         rem = core.require_ok(f_rt.result(), "runtime pairs")
         pem = core.require_ok(f_pairs.result(), "value pairs emit")
+        kem = core.require_ok(f_const.result(), "constant-folding cases")
     core.require_coverage(em, ["Next"], "Totality")
     check.add_tlc("emit1", em)
     progs = core.emitted_json(em)
@@ -633,6 +662,17 @@ def run(check: core.Check) -> None:
     rts = core.emitted_json(rem)
     check.add_tlc("value-pairs", pem)
     allpairs = core.emitted_json(pem)
+    check.add_tlc("constant-folding", kem)
+    consts = core.emitted_json(kem)
+    fams = K.families()   # the tables of the renderer and of Totality.tla (KFamilies / KArity) must be the same
+    seen_ops = {(c["const"]["fam"], c["const"]["idx"]) for c in consts}
+    if seen_ops != {(f, i) for f, ops in fams.items() for i in range(1, len(ops) + 1)}:
+        raise core.MachineryError("Totality.tla KFamilies and harness/c12_constfold.py disagree about the operation tables")
+    for c in consts:
+        ar = K.BINARY.get(c["const"]["fam"], "unary")
+        if (ar == "unary") != (c["const"]["ys"] == []) or (ar in ("small", "bothsmall") and c["const"]["ys"] != K.YS_SMALL) or (
+                ar == "bothsmall") != (c["const"]["xs"] == K.YS_SMALL):
+            raise core.MachineryError(f"Totality.tla KArity and harness/c12_constfold.py disagree on {c['const']['fam']}")
     pairs = rnd.sample(allpairs, min(len(allpairs), 4000 if quick else 10**9))
     # always include the pairs with a big literal union on either side (set-based fast paths of MultiValuedValue)
     big = [p for p in allpairs if any(t["k"] == "union" and len(t["ms"]) >= 10 for t in (p["a"], p["b"]))]
@@ -651,13 +691,17 @@ def run(check: core.Check) -> None:
         "padding x lines before in {0,1,4} x after in {0,4} x trailing newline exhaustively, fillers / terminators by simulation "
         "(thorough: before in {0,1,3,4} x after in {0,3,4} x 3 fillers x LF/CRLF exhaustively + 4000 simulated over everything); every diagnostic judged on the position model (WellFormed + context); value pairs = "
         "WideTerms x WideTerms of TotalityValues.tla (quick: the callable family CallFamily x CallFamily, the diagonal and 4000 sampled pairs) + Assign.tla's pairs, 12 binary operations "
-        "per pair + 25 unary ones on the union; runtime API on RtObjects x RtTypes; non-trivial = distinct modules / layouts / pairs")
-    judge(check, progs, layouts, pairs + wide, rts, "tlc-generated")
+        "per pair + 25 unary ones on the union; runtime API on RtObjects x RtTypes; constant folding = every operation of the 15 "
+        "families (f-string specs / conversions / nested specs, % and str.format, calls, operators) x 21 constants x second-operand "
+        "menu (quick: 11 values, thorough: 21; exponents and repeat counts from the small menu), one module per operation; non-trivial = distinct modules / layouts / pairs")
+    judge(check, progs, layouts, pairs + wide, rts, "tlc-generated", consts)
 
 
 def replay(check: core.Check, witness: dict) -> None:
     c = witness["case"]
-    if c.get("prog"):
+    if c.get("const"):
+        judge(check, [], [], [], [], "replay", [{"const": c["const"]}])
+    elif c.get("prog"):
         judge(check, [{"prog": c["prog"]}], [], [], [], "replay")
     elif c.get("layout"):
         judge(check, [], [{"layout": c["layout"]}], [], [], "replay")
